@@ -87,6 +87,7 @@ variables
     fr = <<>>,                       \* per frame: ActiveQuery (cycle heads, input_outputs, changed_at, durability)
     rv = {}, rh = NoHeads, rcat = R0, rdur = NEVER,     \* return registers of Fetch
     rchg = FALSE, rok = FALSE,                          \* return registers of MaybeChanged / DeepVerify
+    capt = [j \in F |-> NoMemo],     \* opt_old_memo: the memo loaded right after claiming (before deep verification)
     nops = 0, nwr = 0, lastreq = 1,
     armed = 0, npan = 0,             \* function whose next body execution panics (0 = none); panics armed so far
     unw = "",                        \* unwinding: "" | "user" (user panic) | "pp" (Cancelled::PropagatedPanic)
@@ -207,6 +208,7 @@ procedure Fetch(fq) {
      } else if (memo[fq].has /\ memo[fq].hv /\ memo[fq].final) {
         \* deep_verify_memo of a final memo from an older revision (the claim is kept meanwhile)
         lock[fq] := "held";
+        capt[fq] := memo[fq];
         call DeepVerify(fq);
  F3:    if (unw # "") {
             lock := Released(fq);        \* the claim guard is dropped while unwinding
@@ -215,11 +217,14 @@ procedure Fetch(fq) {
             lock := Released(fq);
             rv := memo[fq].val; rh := NoHeads; rcat := memo[fq].cat; rdur := memo[fq].dur;
             return;
+        } else {
+            goto F1b;
         };
      } else if (memo[fq].has /\ HeadMemoMissing(memo[fq])) {
         bad := bad \cup {"HeadMemoMissing"};
      };
- F1: call Exec(fq);
+ F1: capt[fq] := memo[fq];
+ F1b: call Exec(fq);
  F2: if (unw = "") {
         rv := memo[fq].val; rcat := memo[fq].cat; rdur := memo[fq].dur;
         rh := IF memo[fq].final THEN NoHeads ELSE memo[fq].heads;
@@ -267,6 +272,7 @@ procedure MaybeChanged(mq, mr) {
         rchg := TRUE; return;
      } else {
         lock[mq] := "held";
+        capt[mq] := memo[mq];
         call DeepVerify(mq);
      };
  M1: if (unw # "") {
@@ -290,17 +296,17 @@ procedure Exec(eq)
   variables ci = 1; acc = {}; rounds = 0; iteration = 0; old = NoMemo; lphas = FALSE; lp = NoMemo;
             P = {}; nh = NoHeads; dep = FALSE; cit = 0; last = NoMemo; flat = <<>>;
 {
- E0: if (memo[eq].has /\ memo[eq].vat = rev /\ ~memo[eq].hv) {
+ E0: if (capt[eq].has /\ capt[eq].vat = rev /\ ~capt[eq].hv) {
         \* previous_iteration: a cycle query that panicked earlier in this revision propagates the panic
         unw := "pp";
         lock := Released(eq);
         return;
      } else {
         lock[eq] := "held";
-        old := memo[eq];
-        iteration := IF memo[eq].has /\ memo[eq].vat = rev THEN memo[eq].it ELSE 0;
-        lphas := memo[eq].has /\ memo[eq].hv /\ memo[eq].vat = rev /\ memo[eq].heads[eq] # -1;
-        lp := memo[eq];
+        old := capt[eq];
+        iteration := IF capt[eq].has /\ capt[eq].vat = rev THEN capt[eq].it ELSE 0;
+        lphas := capt[eq].has /\ capt[eq].hv /\ capt[eq].vat = rev /\ capt[eq].heads[eq] # -1;
+        lp := capt[eq];
         qstack := Append(qstack, eq);
         fr := Append(fr, Frame0);
      };
@@ -462,7 +468,7 @@ procedure Exec(eq)
 \* BEGIN TRANSLATION
 CONSTANT defaultInitValue
 VARIABLES pc, prog, inp, rev, lastchg, memo, lock, xto, qstack, fr, rv, rh, 
-          rcat, rdur, rchg, rok, nops, nwr, lastreq, armed, npan, unw, 
+          rcat, rdur, rchg, rok, capt, nops, nwr, lastreq, armed, npan, unw, 
           lastpanic, xlog, hist, bad, stack
 
 (* define statement *)
@@ -540,7 +546,7 @@ VARIABLES fq, dq, di, dvat, mq, mr, eq, ci, acc, rounds, iteration, old,
           lphas, lp, P, nh, dep, cit, last, flat
 
 vars == << pc, prog, inp, rev, lastchg, memo, lock, xto, qstack, fr, rv, rh, 
-           rcat, rdur, rchg, rok, nops, nwr, lastreq, armed, npan, unw, 
+           rcat, rdur, rchg, rok, capt, nops, nwr, lastreq, armed, npan, unw, 
            lastpanic, xlog, hist, bad, stack, fq, dq, di, dvat, mq, mr, eq, 
            ci, acc, rounds, iteration, old, lphas, lp, P, nh, dep, cit, last, 
            flat >>
@@ -561,6 +567,7 @@ Init == (* Global variables *)
         /\ rdur = NEVER
         /\ rchg = FALSE
         /\ rok = FALSE
+        /\ capt = [j \in F |-> NoMemo]
         /\ nops = 0
         /\ nwr = 0
         /\ lastreq = 1
@@ -608,7 +615,7 @@ F0 == /\ pc = "F0"
                  /\ pc' = Head(stack).pc
                  /\ fq' = Head(stack).fq
                  /\ stack' = Tail(stack)
-                 /\ UNCHANGED << lock, unw, bad, dq, di, dvat >>
+                 /\ UNCHANGED << lock, capt, unw, bad, dq, di, dvat >>
             ELSE /\ IF lock[fq] = "held"
                        THEN /\ IF memo[fq].has /\ ~memo[fq].hv /\ ~memo[fq].final /\ memo[fq].vat = rev
                                   THEN /\ unw' = "pp"
@@ -632,13 +639,13 @@ F0 == /\ pc = "F0"
                             /\ pc' = Head(stack).pc
                             /\ fq' = Head(stack).fq
                             /\ stack' = Tail(stack)
-                            /\ UNCHANGED << lock, bad, dq, di, dvat >>
+                            /\ UNCHANGED << lock, capt, bad, dq, di, dvat >>
                        ELSE /\ IF lock[fq] = "xfer" /\ ~Owned(fq)
                                   THEN /\ lock' = [lock EXCEPT ![fq] = "free"]
                                        /\ pc' = "F0"
                                        /\ UNCHANGED << memo, rv, rh, rcat, 
-                                                       rdur, bad, stack, fq, 
-                                                       dq, di, dvat >>
+                                                       rdur, capt, bad, stack, 
+                                                       fq, dq, di, dvat >>
                                   ELSE /\ IF memo[fq].has /\ memo[fq].hv /\ ShallowOK(memo[fq]) /\ ValidateMaybeProv(fq, memo[fq])
                                              THEN /\ rv' = memo[fq].val
                                                   /\ rcat' = memo[fq].cat
@@ -648,10 +655,12 @@ F0 == /\ pc = "F0"
                                                   /\ pc' = Head(stack).pc
                                                   /\ fq' = Head(stack).fq
                                                   /\ stack' = Tail(stack)
-                                                  /\ UNCHANGED << lock, bad, 
-                                                                  dq, di, dvat >>
+                                                  /\ UNCHANGED << lock, capt, 
+                                                                  bad, dq, di, 
+                                                                  dvat >>
                                              ELSE /\ IF memo[fq].has /\ memo[fq].hv /\ memo[fq].final
                                                         THEN /\ lock' = [lock EXCEPT ![fq] = "held"]
+                                                             /\ capt' = [capt EXCEPT ![fq] = memo[fq]]
                                                              /\ /\ dq' = fq
                                                                 /\ stack' = << [ procedure |->  "DeepVerify",
                                                                                  pc        |->  "F3",
@@ -669,6 +678,7 @@ F0 == /\ pc = "F0"
                                                                         /\ bad' = bad
                                                              /\ pc' = "F1"
                                                              /\ UNCHANGED << lock, 
+                                                                             capt, 
                                                                              stack, 
                                                                              dq, 
                                                                              di, 
@@ -698,52 +708,61 @@ F3 == /\ pc = "F3"
                             /\ pc' = Head(stack).pc
                             /\ fq' = Head(stack).fq
                             /\ stack' = Tail(stack)
-                       ELSE /\ pc' = "F1"
+                       ELSE /\ pc' = "F1b"
                             /\ UNCHANGED << lock, rv, rh, rcat, rdur, stack, 
                                             fq >>
       /\ UNCHANGED << prog, inp, rev, lastchg, memo, xto, qstack, fr, rchg, 
-                      rok, nops, nwr, lastreq, armed, npan, unw, lastpanic, 
-                      xlog, hist, bad, dq, di, dvat, mq, mr, eq, ci, acc, 
-                      rounds, iteration, old, lphas, lp, P, nh, dep, cit, last, 
-                      flat >>
+                      rok, capt, nops, nwr, lastreq, armed, npan, unw, 
+                      lastpanic, xlog, hist, bad, dq, di, dvat, mq, mr, eq, ci, 
+                      acc, rounds, iteration, old, lphas, lp, P, nh, dep, cit, 
+                      last, flat >>
 
 F1 == /\ pc = "F1"
-      /\ /\ eq' = fq
-         /\ stack' = << [ procedure |->  "Exec",
-                          pc        |->  "F2",
-                          ci        |->  ci,
-                          acc       |->  acc,
-                          rounds    |->  rounds,
-                          iteration |->  iteration,
-                          old       |->  old,
-                          lphas     |->  lphas,
-                          lp        |->  lp,
-                          P         |->  P,
-                          nh        |->  nh,
-                          dep       |->  dep,
-                          cit       |->  cit,
-                          last      |->  last,
-                          flat      |->  flat,
-                          eq        |->  eq ] >>
-                      \o stack
-      /\ ci' = 1
-      /\ acc' = {}
-      /\ rounds' = 0
-      /\ iteration' = 0
-      /\ old' = NoMemo
-      /\ lphas' = FALSE
-      /\ lp' = NoMemo
-      /\ P' = {}
-      /\ nh' = NoHeads
-      /\ dep' = FALSE
-      /\ cit' = 0
-      /\ last' = NoMemo
-      /\ flat' = <<>>
-      /\ pc' = "E0"
+      /\ capt' = [capt EXCEPT ![fq] = memo[fq]]
+      /\ pc' = "F1b"
       /\ UNCHANGED << prog, inp, rev, lastchg, memo, lock, xto, qstack, fr, rv, 
                       rh, rcat, rdur, rchg, rok, nops, nwr, lastreq, armed, 
-                      npan, unw, lastpanic, xlog, hist, bad, fq, dq, di, dvat, 
-                      mq, mr >>
+                      npan, unw, lastpanic, xlog, hist, bad, stack, fq, dq, di, 
+                      dvat, mq, mr, eq, ci, acc, rounds, iteration, old, lphas, 
+                      lp, P, nh, dep, cit, last, flat >>
+
+F1b == /\ pc = "F1b"
+       /\ /\ eq' = fq
+          /\ stack' = << [ procedure |->  "Exec",
+                           pc        |->  "F2",
+                           ci        |->  ci,
+                           acc       |->  acc,
+                           rounds    |->  rounds,
+                           iteration |->  iteration,
+                           old       |->  old,
+                           lphas     |->  lphas,
+                           lp        |->  lp,
+                           P         |->  P,
+                           nh        |->  nh,
+                           dep       |->  dep,
+                           cit       |->  cit,
+                           last      |->  last,
+                           flat      |->  flat,
+                           eq        |->  eq ] >>
+                       \o stack
+       /\ ci' = 1
+       /\ acc' = {}
+       /\ rounds' = 0
+       /\ iteration' = 0
+       /\ old' = NoMemo
+       /\ lphas' = FALSE
+       /\ lp' = NoMemo
+       /\ P' = {}
+       /\ nh' = NoHeads
+       /\ dep' = FALSE
+       /\ cit' = 0
+       /\ last' = NoMemo
+       /\ flat' = <<>>
+       /\ pc' = "E0"
+       /\ UNCHANGED << prog, inp, rev, lastchg, memo, lock, xto, qstack, fr, 
+                       rv, rh, rcat, rdur, rchg, rok, capt, nops, nwr, lastreq, 
+                       armed, npan, unw, lastpanic, xlog, hist, bad, fq, dq, 
+                       di, dvat, mq, mr >>
 
 F2 == /\ pc = "F2"
       /\ IF unw = ""
@@ -757,21 +776,21 @@ F2 == /\ pc = "F2"
       /\ fq' = Head(stack).fq
       /\ stack' = Tail(stack)
       /\ UNCHANGED << prog, inp, rev, lastchg, memo, lock, xto, qstack, fr, 
-                      rchg, rok, nops, nwr, lastreq, armed, npan, unw, 
+                      rchg, rok, capt, nops, nwr, lastreq, armed, npan, unw, 
                       lastpanic, xlog, hist, bad, dq, di, dvat, mq, mr, eq, ci, 
                       acc, rounds, iteration, old, lphas, lp, P, nh, dep, cit, 
                       last, flat >>
 
-Fetch == F0 \/ F3 \/ F1 \/ F2
+Fetch == F0 \/ F3 \/ F1 \/ F1b \/ F2
 
 D0 == /\ pc = "D0"
       /\ dvat' = memo[dq].vat
       /\ pc' = "D1"
       /\ UNCHANGED << prog, inp, rev, lastchg, memo, lock, xto, qstack, fr, rv, 
-                      rh, rcat, rdur, rchg, rok, nops, nwr, lastreq, armed, 
-                      npan, unw, lastpanic, xlog, hist, bad, stack, fq, dq, di, 
-                      mq, mr, eq, ci, acc, rounds, iteration, old, lphas, lp, 
-                      P, nh, dep, cit, last, flat >>
+                      rh, rcat, rdur, rchg, rok, capt, nops, nwr, lastreq, 
+                      armed, npan, unw, lastpanic, xlog, hist, bad, stack, fq, 
+                      dq, di, mq, mr, eq, ci, acc, rounds, iteration, old, 
+                      lphas, lp, P, nh, dep, cit, last, flat >>
 
 D1 == /\ pc = "D1"
       /\ IF di <= Len(memo[dq].deps)
@@ -804,9 +823,10 @@ D1 == /\ pc = "D1"
             ELSE /\ pc' = "D3"
                  /\ UNCHANGED << rok, stack, dq, di, dvat, mq, mr >>
       /\ UNCHANGED << prog, inp, rev, lastchg, memo, lock, xto, qstack, fr, rv, 
-                      rh, rcat, rdur, rchg, nops, nwr, lastreq, armed, npan, 
-                      unw, lastpanic, xlog, hist, bad, fq, eq, ci, acc, rounds, 
-                      iteration, old, lphas, lp, P, nh, dep, cit, last, flat >>
+                      rh, rcat, rdur, rchg, capt, nops, nwr, lastreq, armed, 
+                      npan, unw, lastpanic, xlog, hist, bad, fq, eq, ci, acc, 
+                      rounds, iteration, old, lphas, lp, P, nh, dep, cit, last, 
+                      flat >>
 
 D2 == /\ pc = "D2"
       /\ IF unw # "" \/ rchg
@@ -820,10 +840,10 @@ D2 == /\ pc = "D2"
                  /\ pc' = "D1"
                  /\ UNCHANGED << rok, stack, dq, dvat >>
       /\ UNCHANGED << prog, inp, rev, lastchg, memo, lock, xto, qstack, fr, rv, 
-                      rh, rcat, rdur, rchg, nops, nwr, lastreq, armed, npan, 
-                      unw, lastpanic, xlog, hist, bad, fq, mq, mr, eq, ci, acc, 
-                      rounds, iteration, old, lphas, lp, P, nh, dep, cit, last, 
-                      flat >>
+                      rh, rcat, rdur, rchg, capt, nops, nwr, lastreq, armed, 
+                      npan, unw, lastpanic, xlog, hist, bad, fq, mq, mr, eq, 
+                      ci, acc, rounds, iteration, old, lphas, lp, P, nh, dep, 
+                      cit, last, flat >>
 
 D3 == /\ pc = "D3"
       /\ memo' = [memo EXCEPT ![dq].vat = rev]
@@ -834,8 +854,8 @@ D3 == /\ pc = "D3"
       /\ dq' = Head(stack).dq
       /\ stack' = Tail(stack)
       /\ UNCHANGED << prog, inp, rev, lastchg, lock, xto, qstack, fr, rv, rh, 
-                      rcat, rdur, rchg, nops, nwr, lastreq, armed, npan, unw, 
-                      lastpanic, xlog, hist, bad, fq, mq, mr, eq, ci, acc, 
+                      rcat, rdur, rchg, capt, nops, nwr, lastreq, armed, npan, 
+                      unw, lastpanic, xlog, hist, bad, fq, mq, mr, eq, ci, acc, 
                       rounds, iteration, old, lphas, lp, P, nh, dep, cit, last, 
                       flat >>
 
@@ -848,7 +868,7 @@ M0 == /\ pc = "M0"
                  /\ mq' = Head(stack).mq
                  /\ mr' = Head(stack).mr
                  /\ stack' = Tail(stack)
-                 /\ UNCHANGED << memo, lock, dq, di, dvat >>
+                 /\ UNCHANGED << memo, lock, capt, dq, di, dvat >>
             ELSE /\ IF ShallowOK(memo[mq]) /\ memo[mq].final
                        THEN /\ memo' = [memo EXCEPT ![mq].vat = rev]
                             /\ rchg' = (memo'[mq].cat > mr)
@@ -856,15 +876,15 @@ M0 == /\ pc = "M0"
                             /\ mq' = Head(stack).mq
                             /\ mr' = Head(stack).mr
                             /\ stack' = Tail(stack)
-                            /\ UNCHANGED << lock, dq, di, dvat >>
+                            /\ UNCHANGED << lock, capt, dq, di, dvat >>
                        ELSE /\ IF lock[mq] = "held" \/ (lock[mq] = "xfer" /\ Owned(mq))
                                   THEN /\ rchg' = TRUE
                                        /\ pc' = Head(stack).pc
                                        /\ mq' = Head(stack).mq
                                        /\ mr' = Head(stack).mr
                                        /\ stack' = Tail(stack)
-                                       /\ UNCHANGED << memo, lock, dq, di, 
-                                                       dvat >>
+                                       /\ UNCHANGED << memo, lock, capt, dq, 
+                                                       di, dvat >>
                                   ELSE /\ IF ShallowOK(memo[mq]) /\ ValidateMaybeProv(mq, memo[mq])
                                              THEN /\ rchg' = (memo[mq].cat > mr)
                                                   /\ memo' = [memo EXCEPT ![mq] = [memo[mq] EXCEPT !.vat = rev, !.final = @ \/ BecomesFinal(memo[mq])]]
@@ -872,8 +892,8 @@ M0 == /\ pc = "M0"
                                                   /\ mq' = Head(stack).mq
                                                   /\ mr' = Head(stack).mr
                                                   /\ stack' = Tail(stack)
-                                                  /\ UNCHANGED << lock, dq, di, 
-                                                                  dvat >>
+                                                  /\ UNCHANGED << lock, capt, 
+                                                                  dq, di, dvat >>
                                              ELSE /\ IF ~memo[mq].final
                                                         THEN /\ rchg' = TRUE
                                                              /\ pc' = Head(stack).pc
@@ -881,10 +901,12 @@ M0 == /\ pc = "M0"
                                                              /\ mr' = Head(stack).mr
                                                              /\ stack' = Tail(stack)
                                                              /\ UNCHANGED << lock, 
+                                                                             capt, 
                                                                              dq, 
                                                                              di, 
                                                                              dvat >>
                                                         ELSE /\ lock' = [lock EXCEPT ![mq] = "held"]
+                                                             /\ capt' = [capt EXCEPT ![mq] = memo[mq]]
                                                              /\ /\ dq' = mq
                                                                 /\ stack' = << [ procedure |->  "DeepVerify",
                                                                                  pc        |->  "M1",
@@ -930,10 +952,10 @@ M1 == /\ pc = "M1"
                                        /\ UNCHANGED << lock, rchg, stack, mq, 
                                                        mr >>
       /\ UNCHANGED << prog, inp, rev, lastchg, memo, xto, qstack, fr, rv, rh, 
-                      rcat, rdur, rok, nops, nwr, lastreq, armed, npan, unw, 
-                      lastpanic, xlog, hist, bad, fq, dq, di, dvat, eq, ci, 
-                      acc, rounds, iteration, old, lphas, lp, P, nh, dep, cit, 
-                      last, flat >>
+                      rcat, rdur, rok, capt, nops, nwr, lastreq, armed, npan, 
+                      unw, lastpanic, xlog, hist, bad, fq, dq, di, dvat, eq, 
+                      ci, acc, rounds, iteration, old, lphas, lp, P, nh, dep, 
+                      cit, last, flat >>
 
 M2 == /\ pc = "M2"
       /\ /\ eq' = mq
@@ -969,9 +991,9 @@ M2 == /\ pc = "M2"
       /\ flat' = <<>>
       /\ pc' = "E0"
       /\ UNCHANGED << prog, inp, rev, lastchg, memo, lock, xto, qstack, fr, rv, 
-                      rh, rcat, rdur, rchg, rok, nops, nwr, lastreq, armed, 
-                      npan, unw, lastpanic, xlog, hist, bad, fq, dq, di, dvat, 
-                      mq, mr >>
+                      rh, rcat, rdur, rchg, rok, capt, nops, nwr, lastreq, 
+                      armed, npan, unw, lastpanic, xlog, hist, bad, fq, dq, di, 
+                      dvat, mq, mr >>
 
 M3 == /\ pc = "M3"
       /\ rchg' = (memo[mq].cat > mr \/ ~memo[mq].final)
@@ -980,15 +1002,15 @@ M3 == /\ pc = "M3"
       /\ mr' = Head(stack).mr
       /\ stack' = Tail(stack)
       /\ UNCHANGED << prog, inp, rev, lastchg, memo, lock, xto, qstack, fr, rv, 
-                      rh, rcat, rdur, rok, nops, nwr, lastreq, armed, npan, 
-                      unw, lastpanic, xlog, hist, bad, fq, dq, di, dvat, eq, 
-                      ci, acc, rounds, iteration, old, lphas, lp, P, nh, dep, 
-                      cit, last, flat >>
+                      rh, rcat, rdur, rok, capt, nops, nwr, lastreq, armed, 
+                      npan, unw, lastpanic, xlog, hist, bad, fq, dq, di, dvat, 
+                      eq, ci, acc, rounds, iteration, old, lphas, lp, P, nh, 
+                      dep, cit, last, flat >>
 
 MaybeChanged == M0 \/ M1 \/ M2 \/ M3
 
 E0 == /\ pc = "E0"
-      /\ IF memo[eq].has /\ memo[eq].vat = rev /\ ~memo[eq].hv
+      /\ IF capt[eq].has /\ capt[eq].vat = rev /\ ~capt[eq].hv
             THEN /\ unw' = "pp"
                  /\ lock' = Released(eq)
                  /\ pc' = Head(stack).pc
@@ -1009,18 +1031,18 @@ E0 == /\ pc = "E0"
                  /\ stack' = Tail(stack)
                  /\ UNCHANGED << qstack, fr >>
             ELSE /\ lock' = [lock EXCEPT ![eq] = "held"]
-                 /\ old' = memo[eq]
-                 /\ iteration' = (IF memo[eq].has /\ memo[eq].vat = rev THEN memo[eq].it ELSE 0)
-                 /\ lphas' = (memo[eq].has /\ memo[eq].hv /\ memo[eq].vat = rev /\ memo[eq].heads[eq] # -1)
-                 /\ lp' = memo[eq]
+                 /\ old' = capt[eq]
+                 /\ iteration' = (IF capt[eq].has /\ capt[eq].vat = rev THEN capt[eq].it ELSE 0)
+                 /\ lphas' = (capt[eq].has /\ capt[eq].hv /\ capt[eq].vat = rev /\ capt[eq].heads[eq] # -1)
+                 /\ lp' = capt[eq]
                  /\ qstack' = Append(qstack, eq)
                  /\ fr' = Append(fr, Frame0)
                  /\ pc' = "E1"
                  /\ UNCHANGED << unw, stack, eq, ci, acc, rounds, P, nh, dep, 
                                  cit, last, flat >>
       /\ UNCHANGED << prog, inp, rev, lastchg, memo, xto, rv, rh, rcat, rdur, 
-                      rchg, rok, nops, nwr, lastreq, armed, npan, lastpanic, 
-                      xlog, hist, bad, fq, dq, di, dvat, mq, mr >>
+                      rchg, rok, capt, nops, nwr, lastreq, armed, npan, 
+                      lastpanic, xlog, hist, bad, fq, dq, di, dvat, mq, mr >>
 
 E1 == /\ pc = "E1"
       /\ ci' = 1
@@ -1039,8 +1061,8 @@ E1 == /\ pc = "E1"
                  /\ pc' = "E2"
                  /\ UNCHANGED << armed, unw, lastpanic >>
       /\ UNCHANGED << prog, inp, rev, lastchg, memo, lock, xto, qstack, rv, rh, 
-                      rcat, rdur, rchg, rok, nops, nwr, lastreq, npan, hist, 
-                      bad, stack, fq, dq, di, dvat, mq, mr, eq, rounds, 
+                      rcat, rdur, rchg, rok, capt, nops, nwr, lastreq, npan, 
+                      hist, bad, stack, fq, dq, di, dvat, mq, mr, eq, rounds, 
                       iteration, old, lphas, lp, P, nh, dep, cit, last, flat >>
 
 E2 == /\ pc = "E2"
@@ -1063,20 +1085,20 @@ E2 == /\ pc = "E2"
             ELSE /\ pc' = "E4"
                  /\ UNCHANGED << fr, stack, fq, ci >>
       /\ UNCHANGED << prog, inp, rev, lastchg, memo, lock, xto, qstack, rv, rh, 
-                      rcat, rdur, rchg, rok, nops, nwr, lastreq, armed, npan, 
-                      unw, lastpanic, xlog, hist, bad, dq, di, dvat, mq, mr, 
-                      eq, acc, rounds, iteration, old, lphas, lp, P, nh, dep, 
-                      cit, last, flat >>
+                      rcat, rdur, rchg, rok, capt, nops, nwr, lastreq, armed, 
+                      npan, unw, lastpanic, xlog, hist, bad, dq, di, dvat, mq, 
+                      mr, eq, acc, rounds, iteration, old, lphas, lp, P, nh, 
+                      dep, cit, last, flat >>
 
 E3 == /\ pc = "E3"
       /\ IF unw # ""
             THEN /\ pc' = "EU"
             ELSE /\ pc' = "E3b"
       /\ UNCHANGED << prog, inp, rev, lastchg, memo, lock, xto, qstack, fr, rv, 
-                      rh, rcat, rdur, rchg, rok, nops, nwr, lastreq, armed, 
-                      npan, unw, lastpanic, xlog, hist, bad, stack, fq, dq, di, 
-                      dvat, mq, mr, eq, ci, acc, rounds, iteration, old, lphas, 
-                      lp, P, nh, dep, cit, last, flat >>
+                      rh, rcat, rdur, rchg, rok, capt, nops, nwr, lastreq, 
+                      armed, npan, unw, lastpanic, xlog, hist, bad, stack, fq, 
+                      dq, di, dvat, mq, mr, eq, ci, acc, rounds, iteration, 
+                      old, lphas, lp, P, nh, dep, cit, last, flat >>
 
 E3b == /\ pc = "E3b"
        /\ acc' = (acc \cup rv)
@@ -1091,10 +1113,10 @@ E3b == /\ pc = "E3b"
        /\ ci' = ci + 1
        /\ pc' = "E2"
        /\ UNCHANGED << prog, inp, rev, lastchg, memo, lock, xto, qstack, rv, 
-                       rh, rcat, rdur, rchg, rok, nops, nwr, lastreq, armed, 
-                       npan, unw, lastpanic, xlog, hist, stack, fq, dq, di, 
-                       dvat, mq, mr, eq, rounds, iteration, old, lphas, lp, P, 
-                       nh, dep, cit, last, flat >>
+                       rh, rcat, rdur, rchg, rok, capt, nops, nwr, lastreq, 
+                       armed, npan, unw, lastpanic, xlog, hist, stack, fq, dq, 
+                       di, dvat, mq, mr, eq, rounds, iteration, old, lphas, lp, 
+                       P, nh, dep, cit, last, flat >>
 
 E4 == /\ pc = "E4"
       /\ IF HeadSet(fr[Top].heads) = {}
@@ -1114,10 +1136,10 @@ E4 == /\ pc = "E4"
                  /\ pc' = "E5"
                  /\ UNCHANGED << memo, lock, bad >>
       /\ UNCHANGED << prog, inp, rev, lastchg, xto, qstack, fr, rv, rh, rcat, 
-                      rdur, rchg, rok, nops, nwr, lastreq, armed, npan, unw, 
-                      lastpanic, xlog, hist, stack, fq, dq, di, dvat, mq, mr, 
-                      eq, ci, acc, rounds, iteration, old, lphas, lp, nh, dep, 
-                      cit, last >>
+                      rdur, rchg, rok, capt, nops, nwr, lastreq, armed, npan, 
+                      unw, lastpanic, xlog, hist, stack, fq, dq, di, dvat, mq, 
+                      mr, eq, ci, acc, rounds, iteration, old, lphas, lp, nh, 
+                      dep, cit, last >>
 
 E5 == /\ pc = "E5"
       /\ IF \E h \in Followed(eq, HeadSet(fr[Top].heads), P) : ~memo[h].has \/ memo[h].final
@@ -1131,10 +1153,10 @@ E5 == /\ pc = "E5"
       /\ cit' = MaxIter(eq, HeadSet(fr[Top].heads), P, iteration)
       /\ pc' = "E7"
       /\ UNCHANGED << prog, inp, rev, lastchg, memo, lock, xto, qstack, fr, rv, 
-                      rh, rcat, rdur, rchg, rok, nops, nwr, lastreq, armed, 
-                      npan, unw, lastpanic, xlog, hist, stack, fq, dq, di, 
-                      dvat, mq, mr, eq, ci, acc, rounds, iteration, old, lphas, 
-                      lp, P, last, flat >>
+                      rh, rcat, rdur, rchg, rok, capt, nops, nwr, lastreq, 
+                      armed, npan, unw, lastpanic, xlog, hist, stack, fq, dq, 
+                      di, dvat, mq, mr, eq, ci, acc, rounds, iteration, old, 
+                      lphas, lp, P, last, flat >>
 
 E7 == /\ pc = "E7"
       /\ IF ~dep
@@ -1158,7 +1180,7 @@ E7 == /\ pc = "E7"
                  /\ pc' = "E8"
                  /\ UNCHANGED << memo, lock, xto >>
       /\ UNCHANGED << prog, inp, rev, lastchg, qstack, fr, rv, rh, rcat, rdur, 
-                      rchg, rok, nops, nwr, lastreq, armed, npan, unw, 
+                      rchg, rok, capt, nops, nwr, lastreq, armed, npan, unw, 
                       lastpanic, xlog, hist, stack, fq, dq, di, dvat, mq, mr, 
                       eq, ci, rounds, iteration, old, lphas, lp, P, nh, dep, 
                       cit, flat >>
@@ -1210,7 +1232,7 @@ E8 == /\ pc = "E8"
                             /\ lock' = lock
                  /\ xto' = xto
       /\ UNCHANGED << prog, inp, rev, lastchg, qstack, fr, rv, rh, rcat, rdur, 
-                      rchg, rok, nops, nwr, lastreq, armed, npan, unw, 
+                      rchg, rok, capt, nops, nwr, lastreq, armed, npan, unw, 
                       lastpanic, xlog, hist, stack, fq, dq, di, dvat, mq, mr, 
                       eq, ci, acc, old, P, nh, dep, cit, last, flat >>
 
@@ -1234,8 +1256,9 @@ E6 == /\ pc = "E6"
       /\ eq' = Head(stack).eq
       /\ stack' = Tail(stack)
       /\ UNCHANGED << prog, inp, rev, lastchg, memo, lock, xto, rv, rh, rcat, 
-                      rdur, rchg, rok, nops, nwr, lastreq, armed, npan, unw, 
-                      lastpanic, xlog, hist, bad, fq, dq, di, dvat, mq, mr >>
+                      rdur, rchg, rok, capt, nops, nwr, lastreq, armed, npan, 
+                      unw, lastpanic, xlog, hist, bad, fq, dq, di, dvat, mq, 
+                      mr >>
 
 EU == /\ pc = "EU"
       /\ memo' = [memo EXCEPT ![eq] = Poison(eq)]
@@ -1259,8 +1282,8 @@ EU == /\ pc = "EU"
       /\ eq' = Head(stack).eq
       /\ stack' = Tail(stack)
       /\ UNCHANGED << prog, inp, rev, lastchg, xto, rv, rh, rcat, rdur, rchg, 
-                      rok, nops, nwr, lastreq, armed, npan, unw, lastpanic, 
-                      xlog, hist, bad, fq, dq, di, dvat, mq, mr >>
+                      rok, capt, nops, nwr, lastreq, armed, npan, unw, 
+                      lastpanic, xlog, hist, bad, fq, dq, di, dvat, mq, mr >>
 
 Exec == E0 \/ E1 \/ E2 \/ E3 \/ E3b \/ E4 \/ E5 \/ E7 \/ E8 \/ E6 \/ EU
 
@@ -1296,9 +1319,9 @@ L0 == /\ pc = "L0"
                  /\ UNCHANGED << inp, rev, lastchg, nops, nwr, lastreq, armed, 
                                  npan, hist, stack, fq >>
       /\ UNCHANGED << prog, memo, lock, xto, qstack, fr, rv, rh, rcat, rdur, 
-                      rchg, rok, unw, lastpanic, xlog, bad, dq, di, dvat, mq, 
-                      mr, eq, ci, acc, rounds, iteration, old, lphas, lp, P, 
-                      nh, dep, cit, last, flat >>
+                      rchg, rok, capt, unw, lastpanic, xlog, bad, dq, di, dvat, 
+                      mq, mr, eq, ci, acc, rounds, iteration, old, lphas, lp, 
+                      P, nh, dep, cit, last, flat >>
 
 L1 == /\ pc = "L1"
       /\ bad' = (bad \cup (IF unw = "" /\ rv # Expected[lastreq] THEN {IF Fb THEN "C13" ELSE "C12"} ELSE {})
@@ -1312,10 +1335,10 @@ L1 == /\ pc = "L1"
       /\ unw' = ""
       /\ pc' = "L0"
       /\ UNCHANGED << prog, inp, rev, lastchg, memo, lock, xto, qstack, fr, rv, 
-                      rh, rcat, rdur, rchg, rok, nwr, lastreq, armed, npan, 
-                      lastpanic, stack, fq, dq, di, dvat, mq, mr, eq, ci, acc, 
-                      rounds, iteration, old, lphas, lp, P, nh, dep, cit, last, 
-                      flat >>
+                      rh, rcat, rdur, rchg, rok, capt, nwr, lastreq, armed, 
+                      npan, lastpanic, stack, fq, dq, di, dvat, mq, mr, eq, ci, 
+                      acc, rounds, iteration, old, lphas, lp, P, nh, dep, cit, 
+                      last, flat >>
 
 L2 == /\ pc = "L2"
       /\ IF Emit
@@ -1323,10 +1346,10 @@ L2 == /\ pc = "L2"
             ELSE /\ TRUE
       /\ pc' = "Done"
       /\ UNCHANGED << prog, inp, rev, lastchg, memo, lock, xto, qstack, fr, rv, 
-                      rh, rcat, rdur, rchg, rok, nops, nwr, lastreq, armed, 
-                      npan, unw, lastpanic, xlog, hist, bad, stack, fq, dq, di, 
-                      dvat, mq, mr, eq, ci, acc, rounds, iteration, old, lphas, 
-                      lp, P, nh, dep, cit, last, flat >>
+                      rh, rcat, rdur, rchg, rok, capt, nops, nwr, lastreq, 
+                      armed, npan, unw, lastpanic, xlog, hist, bad, stack, fq, 
+                      dq, di, dvat, mq, mr, eq, ci, acc, rounds, iteration, 
+                      old, lphas, lp, P, nh, dep, cit, last, flat >>
 
 (* Allow infinite stuttering to prevent deadlock on termination. *)
 Terminating == pc = "Done" /\ UNCHANGED vars
